@@ -626,6 +626,8 @@ impl DenseStorageMatrix<Vec<F>, F> {
         // assert!(size.0 * size.1 == data.len()): documented panic otherwise (the product itself must not overflow either)
         size.0 * size.1 == data@.len(),
     ensures res.size == size, res.data@ == data@, res.wf(),
+//@pre
+    proof { assert(data@.len() == data.len()); assert(size.0 * size.1 <= usize::MAX); }
 //@end
 //@fn file=src/algebra/dense/core.rs in="impl<T> Matrix<T>" name=zeros rules=R1 ret=res
 //@contract
